@@ -157,6 +157,9 @@ func (w *World) cut() error {
 			w.violate("chansync-msg-failed", fmt.Sprintf("%s.ChanSyncMsg failed after reload: %v", p.name, err))
 			continue
 		}
+		if w.P.ReestMonitor {
+			w.judgeReest(i, msg, "reconnect", nil)
+		}
 		if w.P.NoDLP {
 			msg.LocalUnrevokedCommitPoint = nil
 			msg.LastRemoteCommitSecret = [32]byte{}
@@ -437,6 +440,9 @@ func (w *World) probeLiveReest(i int) error {
 	peerMsg, err := q.ch.State().ChanSyncMsg()
 	if err != nil {
 		return nil
+	}
+	if w.P.ReestMonitor {
+		w.judgeReest(1-i, peerMsg, "live object of the signer", nil)
 	}
 	defer func() {
 		if v := recover(); v != nil {
